@@ -832,6 +832,12 @@ def _eq(e, c, a):
 @model('Fn::call', 'FnMut::call_mut', 'FnOnce::call_once')
 def _fncall(e, c, a):
     fv = a[0]; args = a[1]
+    t = fv
+    while isinstance(t, Ref): t = t.get()
+    if t is None:
+        # a capture-less closure kept in a local is zero-sized: MIR never assigns it, the callee type names it
+        m = re.match(r'^<&?(?:mut )?\{closure@([^}]*)\} as Fn', c)
+        if m: fv = Closure(m.group(1), [])
     return e.call_value(fv, list(args.f))
 
 @model('RangeInclusive::new')
